@@ -61,8 +61,9 @@ def runRtCase (c : RtCase) : IO Unit := do
           IO.println s!"D {due.bitsStr} n={sleeps.length} {bitsListU sleeps}last={last.bitsStr}"
           match r with
           | .ok s' => flushTrace s' from_; IO.println (fmtSnap s'); rs := { rs with k := s' }
-          | .stopped v s' =>
-            flushTrace s' from_; IO.println s!"X StopSimulation {fmtVal s' v} @{s'.now.bitsStr}"
+          | .stopped o s' =>
+            let v := match o with | .ok v => fmtVal s' v | .fail _ => "s*"
+            flushTrace s' from_; IO.println s!"X StopSimulation {v} @{s'.now.bitsStr}"
             rs := { rs with k := s' }; dead := true
           | .empty => IO.println "EMPTY"
           | .crash x s' =>
